@@ -699,6 +699,15 @@ let monitor (pid : string) (h : hist) : string list =
   | "C08" -> c08 h @ c08_flush h @ c01 h @ List.filter (fun s -> String.length s > 22 && String.sub s 0 22 = "c15:blocked-with-space") (c15 h)
   | "C10" -> c10 h | "C11" -> c11 h | "C12" -> c12 h | "C13" -> c13 h @ c01 h | "C14" -> c14 h
   | "C15" -> c15 h | "C16" -> c16 h | "C19" -> c19 h
+  | "C20" ->
+      (* the Batcher's public API under concurrent use: no caller stays blocked for ever, nothing deadlocks, no API
+         call panics (v1's Enqueue on the closed channel is finding D2 of C15/C16 and not repeated here) *)
+      let pre p s = String.length s >= String.length p && String.sub s 0 (String.length p) = p in
+      List.filter_map (fun s ->
+          if pre "c15:blocked-" s then Some ("c20:caller-stuck " ^ s)
+          else if pre "c16:hang" s then Some ("c20:deadlock " ^ s)
+          else if pre "c16:api-panic" s then Some ("c20:panic " ^ s)
+          else None) (c15 h @ c16 h)
   | _ -> []
 
 let stats (path : string) (h : hist) : string =
